@@ -219,6 +219,11 @@ fn run_one(cx: &Ctx<'_>, cfg: &Cfg, prefix: &[usize], allow_dev: bool) -> Outcom
                 break;
             }
         }
+        if ch.diverged() {
+            // the recorded prefix could not be replayed: not an execution of the explored space, not judged
+            h.abort();
+            return Exec { diverged: true, points: ch.points, obs: 0 };
+        }
         let elapsed = t_start.elapsed();
         let result: Option<Result<Vec<DHTNode>, String>> = if h.is_finished() { Some(h.await.map_err(|e| e.to_string()).and_then(|r| r.map_err(|e| e.to_string()))) } else { h.abort(); None };
         let trace: Vec<Ev> = world.trace()[trace_start..].to_vec();
